@@ -241,6 +241,15 @@ class SymEngine:
             self._assume_raw(v <= hi)
         return _mksym(self, v)
 
+    def sym_decimal(self, name, lo, hi, digits):
+        """A real with `digits` decimals: k / 10^digits for a symbolic integer k (keeps rounding constraints in integer arithmetic)."""
+        scale = 10 ** digits
+        k = z3.Int(name)
+        self.inputs[name] = k
+        self._assume_raw(k >= int(lo * scale))
+        self._assume_raw(k <= int(hi * scale))
+        return _mksym(self, z3.ToReal(k) / scale)
+
     def wrap(self, term):
         return _mksym(self, term)
 
@@ -540,6 +549,9 @@ class ConcreteEngine:
     def sym_real(self, name, lo=None, hi=None):
         v = self.sym_int(name, lo, hi)
         return float(v) if isinstance(v, int) and not isinstance(v, bool) else v
+
+    def sym_decimal(self, name, lo, hi, digits):
+        return self.sym_int(name, None, None) / 10 ** digits
 
     def assume(self, f):
         if not f:
